@@ -52,6 +52,22 @@ Check C12_recorded_cycle_ends_the_walk : forall fuel runid cyc w c f r mx seen,
   is_dirty (S fuel) runid cyc w c f r mx seen = Ret (VDirty, w, c, []).
 Print Assumptions C12_recorded_cycle_ends_the_walk.
 
+(* the walk over recorded rows terminates on EVERY database, whatever cycles the
+   rows contain: with more fuel than there are distinct dependency sources the
+   model's walk never runs out of fuel (its only way not to end) -- the half of
+   "never a hang" that concerns redo's own recursion (Build/WalkTerminates.v) *)
+From Redo Require Import Build.WalkTerminates.
+Theorem C12_walk_terminates : forall runid cyc w c f r mx,
+  let U := f :: map d_source (deps (dbs w)) in
+  forall fuel, (length (nodup Nat.eq_dec U) < fuel)%nat ->
+  is_dirty fuel runid cyc w c f r mx [] <> EFuel.
+Proof. exact walk_terminates. Qed.
+Check C12_walk_terminates : forall runid cyc w c f r mx,
+  let U := f :: map d_source (deps (dbs w)) in
+  forall fuel, (length (nodup Nat.eq_dec U) < fuel)%nat ->
+  is_dirty fuel runid cyc w c f r mx [] <> EFuel.
+Print Assumptions C12_walk_terminates.
+
 Definition C12_full_statement : Prop :=
   True (* every invocation whose requested closure contains a cycle terminates in bounded time
           with a non-zero status naming a cyclic dependency, at every -j and entry point *).
